@@ -75,6 +75,9 @@ LAYERS = {
     'C15': [('C03', {'E1', 'E2', 'E2b', 'E3', 'E4', 'E5'}, 'R15.6', 'the values generated code sends are encoded by the built-in serializer: declared strings / numbers / keys must arrive as such')],
     'C17': [('C03', {'E6'}, 'R17.6', 'the only signal that makes the write buffer grow is BufferTooSmall from the slice writer: raised early (an over-estimate) it grows the buffer '
              'past what the message needs and refuses messages below the limit')],
+    'C04': [('C01', 'R01.', 'R04.6', 'a reply is classified from the bytes handed to the decoder: only if these are exactly one frame is an error frame seen as an error frame'),
+            ('C07', {'R07.1', 'R07.2', 'R07.3'}, 'R04.7', 'a receive_reply abandoned by a timeout / select and retried must decode the whole frame: with read progress held in the '
+             'abandoned future the retry decodes a fragment, and a declared error comes back as a decode failure instead of the method\'s error')],
     'C05': [('C04', 'R04.', 'R05.8', 'a reply is decoded only through the classification in receive_reply: a second decode path, or a changed attempt order, makes legal '
              'success / error replies undecodable or misread, whatever the member order')],
     'C08': [('C01', 'R01.', 'R08.9', 'a call the server cannot frame exactly is answered zero or two times, or the next call is answered with its reply'),
@@ -91,6 +94,9 @@ LAYERS = {
     'C10': [('C01', 'R01.', 'R10.6', 'calls pipelined behind a streaming call are in the receive buffer: they are served in order only if framing is exact'),
             ('C02', 'R02.', 'R10.7', 'every stream item is one framed reply that is flushed when sent: an item left in the write buffer is not delivered while the stream is open'),
             ('C18', {'R18.2'}, 'R10.8', 'two streams ready in the same poll: the select must hand out one item and keep the other future pending, not drop its output'),
+            ('C18', {'R18.3', 'R18.4'}, 'R10.11', 'the index the select hands back is used to pick the entry (`reply_streams[idx]`, `connections[idx]`): it names the entry that yielded the '
+             'item only if the futures were handed to the select in list order and nothing reorders the list in between - otherwise an item, an end of stream or a write failure '
+             'lands on another client\'s connection'),
             ('C08', {'R08.6'}, 'R10.10', 'the calls a client pipelined in front of a streaming call are answered before the connection is parked with its stream: a reply that the '
              'handler only enqueued stays in the write buffer for as long as the stream is silent')],
     'C12': [('C02', 'R02.', 'R12.12', 'every generated method hands its call to enqueue / send_call: one document, one NUL, also for the second call of a chain'),
